@@ -22,7 +22,7 @@ def run(ck):
     ck.cov["exhaustive"] = True
     cs = vf.read_ndjson(cases)
     ck.sample({"case": [c for c in cs if c["kind"] == "morton" and len(c["c"]) == 3][5]})
-    fls = lc.flavours_for(ck)
+    fls = lc.flavours_for(ck, quick=("asan", "rel"), thorough=("asan", "rel"))
     specs = [{"name": "h_layout_p0", "sources": "h_layout.cpp", "flavour": fl, "defines": ["VF_LAYOUT_PART=9"]} for fl in fls]
     for sp, b, log in ck.build_many(specs):
         fl = sp["flavour"]
@@ -33,8 +33,6 @@ def run(ck):
         s = ck.harness_output("curve-replay-" + fl, rc, out, err)
         ck.cov["cases_replayed"] += s.get("cases", 0)
         ck.cov["impl_checks"] += s.get("checks", 0)
-        if fl.startswith("rel") and ck.quick:
-            continue
         tr = ck.path("trace-%s.ndjson" % fl)
         hk = ("7", "8") if ck.quick else ("7", "10")
         rc, out, err = ck.run([b, "trace", str(ck.seed), "150" if ck.quick else "800", hk[0], hk[1], tr], timeout=900)
